@@ -242,6 +242,10 @@ def special_circuits():
     out.append(("absorbed-outputs-only-twice", circgen.build(["x", "y"], [("g1", G.OR, ("x", "y")), ("g2", G.AND, ("x", "g1"))], ["g2", "g2"])))
     out.append(("improvable-output-listed-twice", circgen.build(
         ["a", "b"], [("o", G.OR, ("a", "b")), ("n", G.NAND, ("a", "b")), ("x", G.AND, ("o", "n"))], ["x", "a", "x"])))
+    # a cone is replaced by a smaller one (a label vanishes) and a later cone still lists the vanished gate
+    out.append(("later-cone-holds-a-vanished-gate", circgen.build(
+        ["a", "b", "c", "d"], [("g1", G.AND, ("a", "b")), ("g3", G.AND, ("b", "c")), ("g4", G.AND, ("g1", "g3")), ("k", G.AND, ("c", "d")), ("m", G.LT, ("b", "d")),
+                               ("n", G.OR, ("k", "m"))], ["g4", "n"])))
     out.append(("xor-from-and-or", circgen.build(
         ["a", "b"], [("o", G.OR, ("a", "b")), ("n", G.NAND, ("a", "b")), ("x", G.AND, ("o", "n"))], ["x"])))
     out.append(("output-is-cone-member", circgen.build(
